@@ -253,12 +253,18 @@ class Simulation(Structure):
     def process_messages(self):
         clibrebound.reb_simulation_get_next_message.restype = c_int
         buf = create_string_buffer(c_int.in_dll(clibrebound, "reb_max_messages_length").value)
+        first_error = None
         while clibrebound.reb_simulation_get_next_message(byref(self), buf):
             msg = buf.value.decode("ascii")
             if msg[0]=='w':
                 warnings.warn(msg[1:], RuntimeWarning)
             elif msg[0]=='e':
-                raise RuntimeError(msg[1:])
+                # Read the whole queue before raising: an error message left in the queue makes the next
+                # integrate() return immediately with a generic error although nothing is wrong any more.
+                if first_error is None:
+                    first_error = msg[1:]
+        if first_error is not None:
+            raise RuntimeError(first_error)
 
 # Pickling methods: return Simulationarchive binary
     def __reduce__(self):
